@@ -6,6 +6,7 @@ import Ptn.C16.ValueDemo
 import Ptn.C16.ValueLoop
 import Ptn.C16.LoopDemo
 import Ptn.C16.TensorProduct
+import Ptn.C16.TensorProductValue
 /-! Property theorems for C16. Only property theorems and non-vacuity examples live here. -/
 namespace Ptn.C16
 
@@ -579,5 +580,164 @@ theorem tensor_product_graph_partial :
     ∀ sites ∈ [[7, 1], [5], [1, 3, 5, 7], []],
       Ttndo.tpRecordOk kt sites = true := by
   decide +kernel
+
+/-! ## Value level of `tensor_product_expectation_value` (B42)
+
+`Ttndo.applyAt dim O p f σ = Σ_x O[σ p, x] · f(σ[p ↦ x])` applies the matrix `O[out, in]` at the label `p`;
+`Ttndo.applySites` applies `⊗_s O_s` factor by factor (in the order of the loop over `operator.items()`);
+`Ttndo.absorbedKv` are the ket tensors after the absorption loop, the output index of every absorbed operator read on
+the leg that carries the NAME of the physical leg (`tensordot` is positional, `tensordot_positional`: in the model
+`tensorProductExpectationValue` that axis is called `gOpOut s`; identifying the two names for ALL trees is the graph
+theorem that is still open, see `notes/C16.md`). -/
+
+open Ptn.C04 Ptn.Ein in
+/-- **`absorb_into_open_legs` on a ket copy, graph AND value, every node shape.**  The call succeeds; its result
+(virtual legs in order, then the operator's output leg; one logged pair (ket physical leg, operator input)) is built by
+its single `tensordot` from the ket tensor and the operator tensor; for ALL values of the two tensors reading only
+their own legs, the result evaluated with the output index `a` on `gOpOut k` is
+`Σ_x O[a, x] · ket[…, phys = x]` — i.e. `applyAt (matrix of the operator) (phys k) (ket tensor)` when the output
+index is read on the physical leg's name. -/
+theorem absorb_value {R : Type} [CommSemiring R] (k : Nat) (node : Node) (kvk ov : Asg Leg → R)
+    (hk : DependsOn (· ∈ (gKetT k node).legs) kvk) (ho : DependsOn (· ∈ (Ttndo.siteOpT k).legs) ov) :
+    ∃ r, Ttndo.absorbIntoOpenLegs node (gKetT k node) (Ttndo.siteOpT k) = some r ∧
+      r = ⟨node.nbrs.map (Leg.gKet k) ++ [Leg.gOpOut k], [(Leg.gKetPhys k, Leg.gOpIn k)]⟩ ∧
+      Built r (Ttndo.absorbExpr k node kvk ov) ∧
+      ∀ (dim : Leg → Nat) (σ : Asg Leg),
+        (Ttndo.absorbExpr k node kvk ov).eval dim (upd σ (Leg.gOpOut k) (σ (Leg.gKetPhys k))) =
+          Ttndo.applyAt dim (Ttndo.opMat ov k) (Leg.gKetPhys k) kvk σ := by
+  obtain ⟨r, h1, h2, h3⟩ := Ttndo.absorb_built k node kvk ov
+  exact ⟨r, h1, h2, h3, fun dim σ => Ttndo.absorbExpr_value dim k node kvk ov hk ho σ⟩
+
+open Ptn.C04 Ptn.Ein Ttndo.Demo in
+/-- non-vacuity: the root ket tensor of the demo network and an operator tensor reading both its legs satisfy the
+hypotheses -/
+example : DependsOn (· ∈ (gKetT 1 ⟨some 0, [3]⟩).legs) (kvD 1) ∧
+    DependsOn (· ∈ (Ttndo.siteOpT 1).legs)
+      (fun σ : Asg Leg => tpOD 1 (σ (Leg.gOpOut 1)) (σ (Leg.gOpIn 1))) := by
+  refine ⟨kvD_local (1, some 0, [3]) (by rw [info0]; simp), ?_⟩
+  intro σ τ h
+  simp only [h (Leg.gOpOut 1) (by simp [Ttndo.siteOpT, T.fresh]), h (Leg.gOpIn 1) (by simp [Ttndo.siteOpT, T.fresh])]
+
+open Ptn.C04 Ptn.Ein in
+/-- **The absorption loop applies `⊗_s O_s` to the dense vector of the ket copy — every tree, every list of sites,
+every commutative semiring, all dimensions.**  The absorbed ket tensors are local again, and the canonical dense
+vector built from them is the tensor product of the single-site operators applied to the dense vector of the
+original tensors: `ketVec[kv'](out) = Σ_in Π_s O_s[out_s, in_s] · ketVec[kv](in)`. -/
+theorem tensor_product_ket_value {R : Type} [CommSemiring R] (t : Ptn.C04.Tree) (hnd : t.ids.Nodup)
+    (dim : Leg → Nat) (O : Nat → Nat → Nat → R) (sites : List Nat)
+    (hsites : ∀ s ∈ sites, s ∈ (Ttndo.ketTree t).ids)
+    (kv : Nat → Asg Leg → R) (hkv : Ttndo.KetLocal0 kv (Ttndo.ketTree t)) :
+    Ttndo.KetLocal0 (Ttndo.absorbedKv dim O sites kv) (Ttndo.ketTree t) ∧
+      ∀ σ : Asg Leg, (Ttndo.ketVec (Ttndo.absorbedKv dim O sites kv) (Ttndo.ketTree t)).eval dim σ =
+        Ttndo.applySites dim O sites ((Ttndo.ketVec kv (Ttndo.ketTree t)).eval dim) σ := by
+  obtain ⟨h1, h2⟩ := Ttndo.ketTree_wf t hnd
+  have h0 : (0 : Nat) ∉ (Ttndo.ketTree t).ids := fun h => by have := h2 0 h; omega
+  obtain ⟨hl, hv⟩ := Ttndo.ketVec_absorbed dim O (Ttndo.ketTree t) h1 h0 sites hsites kv hkv
+  exact ⟨hl, fun σ => congrFun hv σ⟩
+
+open Ptn.C04 Ptn.Ein in
+/-- **`tensor_product_expectation_value` computes `Σ_root rv · Σ_phys ((⊗_s O_s) ψ)(phys) · ψ'(phys)`.**  For every
+state tree with distinct identifiers, every commutative semiring, all dimensions, every list of sites of the tree
+(any order, any number: none, one, all), all single-site matrices `O s`, all values of the root tensor and the node
+tensors reading only their own legs: `trace_ttndo` on the network whose ket tensors are the absorbed ones
+(`Ttndo.absorbedKv`: the result of `absorb_into_open_legs` at every named site, `absorb_value`) returns a closed
+tensor, and EVERY expression its last `tensordot` result is built from over the root tensor, the absorbed ket tensors
+and the bra tensors evaluates to the sum over the two root-bond indices of the root tensor times the sum over one
+common index per physical pair of `(⊗_s O_s) ketVec` times `braVec`: operator OUTPUT indices meet the bra copy, INPUT
+indices the ket copy. -/
+theorem tensor_product_value {R : Type} [CommSemiring R] (t : Ptn.C04.Tree) (hnd : t.ids.Nodup)
+    (dim : Leg → Nat) (O : Nat → Nat → Nat → R) (sites : List Nat)
+    (hsites : ∀ s ∈ sites, s ∈ (Ttndo.ketTree t).ids)
+    (kv bv : Nat → Asg Leg → R) (rv : Asg Leg → R)
+    (hkv : Ttndo.KetLocal0 kv (Ttndo.ketTree t)) (hbv : Ttndo.BraLocal0 bv (Ttndo.ketTree t))
+    (hrv : DependsOn (· ∈ Ttndo.rootLegs) rv) :
+    ∃ binds, Ttndo.traceTtndo (Ttndo.ttndoNetK (Ttndo.ketTree t)) = some ⟨[], binds⟩ ∧
+      (∃ e : Expr Leg R, Built ⟨[Ttndo.rootOpenLeg], binds⟩ e ∧
+        e.leaves.Perm (Ttndo.traceLeaves rv (Ttndo.absorbedKv dim O sites kv) bv (Ttndo.ketTree t))) ∧
+      ∀ e : Expr Leg R, Built ⟨[Ttndo.rootOpenLeg], binds⟩ e →
+        e.leaves.Perm (Ttndo.traceLeaves rv (Ttndo.absorbedKv dim O sites kv) bv (Ttndo.ketTree t)) →
+        ∀ σ : Asg Leg, e.eval dim σ =
+          sumPairs dim (Ttndo.rootPairs (Ttndo.ketTree t)) (fun τ => rv τ *
+            sumPairs dim (Ttndo.physPairs (Ttndo.ketTree t)) (fun ρ =>
+              Ttndo.applySites dim O sites ((Ttndo.ketVec kv (Ttndo.ketTree t)).eval dim) ρ *
+                (Ttndo.braVec bv (Ttndo.ketTree t)).eval dim ρ) τ) σ := by
+  obtain ⟨hl, hv⟩ := tensor_product_ket_value t hnd dim O sites hsites kv hkv
+  obtain ⟨binds, hrun, hex, hall⟩ := trace_loop_value t hnd (Ttndo.absorbedKv dim O sites kv) bv rv hl hbv hrv
+  refine ⟨binds, hrun, hex, fun e he hp σ => ?_⟩
+  rw [(hall e he hp).2.2.2 dim σ]
+  simp only [hv]
+
+open Ptn.C04 Ptn.Ein in
+/-- **`tensor_product_expectation_value` of the TTNDO of `from_ttns` is `Σ_phys ((⊗_s O_s) ψ)(phys) · ψ'(phys)` —
+`<psi'| ⊗O |psi>` — for every root bond dimension ≥ 1.**  As `tensor_product_value` with the identity root tensor
+`eye(d).reshape(d, d, 1)` and the padded root bond of the ORIGINAL tensors (the absorptions keep the padding:
+`Ttndo.absorbedKv_zero`): the value is the sum over the physical indices at root-bond index `0` of both copies. -/
+theorem tensor_product_value_padded_root {R : Type} [CommSemiring R] (t : Ptn.C04.Tree) (hnd : t.ids.Nodup)
+    (dim : Leg → Nat) (O : Nat → Nat → Nat → R) (sites : List Nat)
+    (hsites : ∀ s ∈ sites, s ∈ (Ttndo.ketTree t).ids)
+    (kv bv : Nat → Asg Leg → R)
+    (hkv : Ttndo.KetLocal0 kv (Ttndo.ketTree t)) (hbv : Ttndo.BraLocal0 bv (Ttndo.ketTree t))
+    (hdK : 0 < dim Ttndo.rootKetLeg) (hdB : 0 < dim Ttndo.rootBraLeg)
+    (hkz : ∀ ρ : Asg Leg, ρ (Leg.gKet (Ttndo.ketTree t).id 0) ≠ 0 → kv (Ttndo.ketTree t).id ρ = 0)
+    (hbz : ∀ ρ : Asg Leg, ρ (Leg.gBra (Ttndo.ketTree t).id 0) ≠ 0 → bv (Ttndo.ketTree t).id ρ = 0) :
+    ∃ binds, Ttndo.traceTtndo (Ttndo.ttndoNetK (Ttndo.ketTree t)) = some ⟨[], binds⟩ ∧
+      (∃ e : Expr Leg R, Built ⟨[Ttndo.rootOpenLeg], binds⟩ e ∧
+        e.leaves.Perm (Ttndo.traceLeaves Ttndo.eyeRoot (Ttndo.absorbedKv dim O sites kv) bv (Ttndo.ketTree t))) ∧
+      ∀ e : Expr Leg R, Built ⟨[Ttndo.rootOpenLeg], binds⟩ e →
+        e.leaves.Perm (Ttndo.traceLeaves Ttndo.eyeRoot (Ttndo.absorbedKv dim O sites kv) bv (Ttndo.ketTree t)) →
+        ∀ σ : Asg Leg, e.eval dim σ =
+          sumPairs dim (Ttndo.physPairs (Ttndo.ketTree t)) (fun ρ =>
+              Ttndo.applySites dim O sites ((Ttndo.ketVec kv (Ttndo.ketTree t)).eval dim) ρ *
+                (Ttndo.braVec bv (Ttndo.ketTree t)).eval dim ρ)
+            (upd (upd σ (Leg.gKet (Ttndo.ketTree t).id 0) 0) (Leg.gBra (Ttndo.ketTree t).id 0) 0) := by
+  obtain ⟨hl, hv⟩ := tensor_product_ket_value t hnd dim O sites hsites kv hkv
+  have hkz' := Ttndo.absorbedKv_zero dim O (Leg.gKet (Ttndo.ketTree t).id 0) (fun n h => by cases h)
+    (Ttndo.ketTree t).id sites kv hkz
+  obtain ⟨binds, hrun, hex, hall⟩ := trace_loop_value_padded_root t hnd (Ttndo.absorbedKv dim O sites kv) bv
+    hl hbv dim hdK hdB hkz' hbz
+  refine ⟨binds, hrun, hex, fun e he hp σ => ?_⟩
+  rw [hall e he hp σ]
+  simp only [hv]
+
+open Ptn.C04 Ptn.Ein in
+/-- **no factor: the routine is `trace()`** (value-level companion of `tensor_product_empty_is_trace`): with an empty
+product the absorbed tensors are the tensors and `⊗O` is the identity, so `tensor_product_value_padded_root` IS
+`trace_loop_value_padded_root`. -/
+theorem tensor_product_value_no_factor {R : Type} [CommSemiring R] (dim : Leg → Nat) (O : Nat → Nat → Nat → R)
+    (kv : Nat → Asg Leg → R) (f : Asg Leg → R) :
+    Ttndo.absorbedKv dim O [] kv = kv ∧ Ttndo.applySites dim O [] f = f := ⟨rfl, rfl⟩
+
+open Ptn.C04 Ptn.Ein in
+/-- **the order of the factors is irrelevant** (distinct sites — the keys of a dictionary): two orders of the same
+sites give the same operator on the dense vector, hence (`tensor_product_value`) the same expectation value. -/
+theorem tensor_product_factor_order {R : Type} [CommSemiring R] (dim : Leg → Nat) (O : Nat → Nat → Nat → R)
+    (s1 s2 : List Nat) (h : s1.Perm s2) (hnd : s1.Nodup) (f : Asg Leg → R) :
+    Ttndo.applySites dim O s1 f = Ttndo.applySites dim O s2 f :=
+  Ttndo.applySites_perm dim O h hnd f
+
+example : [1, 3].Perm [3, 1] ∧ [1, 3].Nodup := by decide
+
+open Ptn.C04 Ptn.Ein Ttndo.Demo in
+/-- non-vacuity of `tensor_product_value(_padded_root)`: the demo tensors (state tree `0 — 1`, ket identifiers `1`,
+`3`, root bond dimension 3) with an operator on both sites satisfy every hypothesis (the remaining ones are in the
+example after `trace_loop_value_padded_root`) -/
+example : (∀ s ∈ [1, 3], s ∈ (Ttndo.ketTree st).ids) ∧ (∀ s ∈ [3], s ∈ (Ttndo.ketTree st).ids) := by decide
+
+open Ptn.C04 Ptn.Ein Ttndo.Demo in
+/-- … and the right-hand side of `tensor_product_value_padded_root` on the demo network is the dense
+`<psi| O_1 ⊗ O_3 |psi> = 24816` (both sites), `<psi| O_3 |psi> = 5206` (one site), `<psi|psi> = 622` (no factor);
+the same numbers come out of the dense vector of the ABSORBED tensors (left-hand side of `tensor_product_ket_value`) -/
+example : sumPairs dim (Ttndo.physPairs (Ttndo.ketTree st)) (fun ρ =>
+      Ttndo.applySites dim tpOD [1, 3] ((Ttndo.ketVec kvD (Ttndo.ketTree st)).eval dim) ρ *
+        (Ttndo.braVec bvD (Ttndo.ketTree st)).eval dim ρ) (fun _ => 0) = 24816 ∧
+    sumPairs dim (Ttndo.physPairs (Ttndo.ketTree st)) (fun ρ =>
+      Ttndo.applySites dim tpOD [3] ((Ttndo.ketVec kvD (Ttndo.ketTree st)).eval dim) ρ *
+        (Ttndo.braVec bvD (Ttndo.ketTree st)).eval dim ρ) (fun _ => 0) = 5206 ∧
+    sumPairs dim (Ttndo.physPairs (Ttndo.ketTree st)) (fun ρ =>
+      Ttndo.applySites dim tpOD [] ((Ttndo.ketVec kvD (Ttndo.ketTree st)).eval dim) ρ *
+        (Ttndo.braVec bvD (Ttndo.ketTree st)).eval dim ρ) (fun _ => 0) = 622 ∧
+    sumPairs dim (Ttndo.physPairs (Ttndo.ketTree st)) (fun ρ =>
+      (Ttndo.ketVec (Ttndo.absorbedKv dim tpOD [1, 3] kvD) (Ttndo.ketTree st)).eval dim ρ *
+        (Ttndo.braVec bvD (Ttndo.ketTree st)).eval dim ρ) (fun _ => 0) = 24816 := by decide
 
 end Ptn.C16
